@@ -3,7 +3,7 @@ from __future__ import annotations
 
 import numpy as np
 
-from vf import gen, probes
+from vf import gen, plumbing, probes
 
 PID = "C11"
 ANCHORS = ["pyoma2.functions.ssi:SSI_mpe", "pyoma2.functions.plscf:pLSCF_mpe", "pyoma2.algorithms.ssi:SSIdat.mpe", "pyoma2.algorithms.plscf:pLSCF.mpe"]
@@ -27,7 +27,17 @@ ASSUMPTIONS = ["distances within 1e-9 relative (+1e-8 absolute, numpy isclose's 
                "what must be returned when no order qualifies is not stated by the property: not judged"]
 
 
+PLUMB_CLASSES = ['SSIcov', 'SSIdat', 'pLSCF', 'SSIcov_MS', 'SSIcov+unc']
+PLUMB_FIELDS = ['Fn', 'Xi', 'Phi', 'order_out', 'Fn_cov', 'Xi_cov', 'Phi_cov']
+REQUIRED_MONITORS = list(REQUIRED_MONITORS) + [f"plumbing:{s_}" for s_ in plumbing.SCENARIOS]
+REQUIRED_STATES = list(REQUIRED_STATES) + [f"plumbing scenario {s_}" for s_ in plumbing.SCENARIOS]
+
+
 def cases(tier, seed):
+    return _cases(tier, seed) + plumbing.cases(len(plumbing.SCENARIOS) * len(PLUMB_CLASSES) * (1 if tier == "quick" else 6), PLUMB_CLASSES)
+
+
+def _cases(tier, seed):
     n1, n2, n3 = (400, 300, 12) if tier == "quick" else (8000, 6000, 150)
     return ([{"cls": "explicit_tables", "k": k} for k in range(n1)] + [{"cls": "find_min_tables", "k": k} for k in range(n2)]
             + [{"cls": "real_runs", "k": k} for k in range(n3)])
@@ -541,5 +551,7 @@ def run_real(ctx, rng):
 
 
 def run_case(ctx, case):
+    if case["cls"] == "plumbing":
+        return plumbing.run_case(ctx, case, gen.rng_of(case), PLUMB_FIELDS)
     rng = gen.rng_of(case)
     {"explicit_tables": run_explicit, "find_min_tables": run_find_min, "real_runs": run_real}[case["cls"]](ctx, rng)
